@@ -1,6 +1,7 @@
 package checks
 
 import (
+	"fmt"
 	"math/rand"
 	"strings"
 
@@ -95,7 +96,22 @@ func GenHostileRoute(r *rand.Rand, l *Lab, denom string) (spec.Route, string) {
 		rt := spec.Route{Kind: "hyp", Domain: 1, TokenID: tok, Recipient: evmAddr32(r), GasLimit: &zero,
 			MaxFee: &spec.Coin{Denom: world.USDN, Amount: "0"}}
 		cls := ""
-		switch r.Intn(14) {
+		switch r.Intn(18) {
+		case 14:
+			cls = "long-recipient"
+			rt.Recipient = append(evmAddr32(r), byte(1+r.Intn(200)))
+			if r.Intn(2) == 0 {
+				rt.Recipient = []byte(fmt.Sprintf("%x", evmAddr32(r))) // the 64 ASCII bytes of the hex text
+			}
+		case 15:
+			cls = "short-recipient"
+			rt.Recipient = evmAddr32(r)[:20]
+		case 16:
+			cls = "long-token"
+			rt.TokenID = append(append([]byte(nil), rt.TokenID...), 0)
+		case 17:
+			cls = "long-hook"
+			rt.HookID = append(append([]byte(nil), w.Hyp.NoopHook.Bytes()...), 7)
 		case 0:
 			rt.Domain, cls = w.Hyp.Unenrolled[r.Intn(len(w.Hyp.Unenrolled))], "unenrolled"
 		case 1:
